@@ -7,6 +7,7 @@ import IxpeVerif.Model.Gti
 import IxpeVerif.Model.Select
 import IxpeVerif.Model.SelectKw
 import IxpeVerif.Model.Channels
+import IxpeVerif.Model.Hist
 /-! Dispatcher of the hand-written models for the line-protocol driver.  Integers travel in decimal. -/
 namespace Driver
 
@@ -60,6 +61,18 @@ def errCode : Sel.Err → String
 def optF (w : String) : Option Float := if w == "N" then none else some (fbits w.toInt!)
 def showOptF (x : Option Float) : String := match x with | none => "N" | some v => toString v.toBits
 def fw (w : String) : Float := fbits w.toInt!
+
+def fkey (x : Float) : Int := key64 (Int.ofNat x.toBits.toNat)
+def optIdx (o : Option Nat) : Int := match o with | some k => k | none => -1
+
+/-- `_pixelize_skycoords` after the WCS call: swap the axes, add the 0.5 offset, bin on linspace(0, n, n+1) -/
+def cmapIdx (nside : Nat) : List Int → List Int
+  | p0 :: p1 :: rest =>
+    let edges := (List.range (nside + 1)).map fun i => fkey (Float.ofNat i)
+    let x := fbits p1 + 0.5
+    let y := fbits p0 + 0.5
+    optIdx (Hist.binIndex edges (fkey x)) :: optIdx (Hist.binIndex edges (fkey y)) :: cmapIdx nside rest
+  | _ => []
 
 def rowsOf : List Int → List EvL.Row
   | t :: s :: f :: g :: rest => ⟨t, s, f != 0, g.toNat⟩ :: rowsOf rest
@@ -139,6 +152,16 @@ def step (ws : List String) : String :=
     let (e, _) := takeN rest
     showInts ((ints e).map fun x => (Chan.e2cGrid Gen.energyStepEv Gen.numChannels x : Int))
   | ["rint", t] => showInts [Chan.rintHalf t.toInt!]
+  -- hist <n> edges(f64 bits)… <m> values(f64 bits)…  -> bin index per value, -1 if outside
+  | "hist" :: rest =>
+    let (e, rest) := takeN rest
+    let (v, _) := takeN rest
+    let edges := (ints e).map key64
+    showInts ((ints v).map fun x => optIdx (Hist.binIndex edges (key64 x)))
+  -- cmap <nside> <2m> (pix0 pix1)(f64 bits)…  -> (ix, iy) per event
+  | "cmap" :: ns :: rest =>
+    let (v, _) := takeN rest
+    showInts (cmapIdx ns.toNat! (ints v))
   | ["pikey", pi] => showInts [piKey pi.toInt!]
   | ["split", t] => let r := EvL.splitTime t.toInt!; showInts [r.1, r.2]
   | _ => "bad-op"
